@@ -970,20 +970,31 @@ impl OutstationSession {
         match guard.get() {
             Some(TransportRequest::Request(info, request)) => {
                 self.on_link_activity();
+                let is_repeat = matches!(
+                    self.classify(info, request),
+                    FragmentType::RepeatNonRead(_, _)
+                );
                 if let Some(mut result) = self
                     .process_request_from_idle(info, request, database)
                     .await
                 {
                     // optional response
                     if let Some(response) = &mut result.response {
-                        *response = self
-                            .write_solicited(io, writer, info.addr, *response, database)
-                            .await?;
+                        if is_repeat {
+                            // a retransmitted request is answered with the response
+                            // that was sent before, unchanged
+                            self.repeat_solicited(io, info.addr, writer, *response)
+                                .await?;
+                        } else {
+                            *response = self
+                                .write_solicited(io, writer, info.addr, *response, database)
+                                .await?;
 
-                        // check if an extra confirmation was added due to broadcast
-                        if response.header.control.con && result.series.is_none() {
-                            result.series =
-                                Some(ResponseSeries::new(response.header.control.seq, true));
+                            // check if an extra confirmation was added due to broadcast
+                            if response.header.control.con && result.series.is_none() {
+                                result.series =
+                                    Some(ResponseSeries::new(response.header.control.seq, true));
+                            }
                         }
                     }
 
